@@ -40,7 +40,7 @@ def memoized_constants():
 def obligations(tier, seed=0):
     obs = []
     for modname, name in memoized_constants():
-        for prec in (1, 2, 5, 10, 20, 33, 50):
+        for prec in ((1, 2, 5, 10, 20, 33, 50) if tier != 'thorough' else (1, 2, 3, 4, 5, 7, 10, 13, 20, 21, 22, 30, 33, 40, 45, 50)):
             for state in ('empty', 'filled'):
                 for fault in (0, 1):
                     obs.append((FC + 'const_memo', dict(name=name, mod=modname, prec=prec, state=state, fault=fault)))
